@@ -39,12 +39,30 @@
 (* With an entry in BWImpure TLC needs a history with TWO passes to        *)
 (* violate BWDerivOK (the first pass of every graph is still exact): that  *)
 (* is the dimension of the history space the replay must cover.            *)
+(*                                                                         *)
+(* WHICH INPUTS REQUIRE A GRADIENT is a dimension of the forward: every    *)
+(* non-empty subset rg of the tensor inputs of the Function (BWNeedSets),  *)
+(* incl. exactly one of two tensors (a frozen parameter, a constant        *)
+(* operand).  A hand-written backward returns one value per input; the     *)
+(* property per input i in rg: the value delivered is  u . dF/di  (it      *)
+(* EXISTS - not None - and is the complete derivative), unless the forward *)
+(* refused the call loudly (the covariance Functions have no derivative    *)
+(* for x1 / x2 and raise when either wants one: any, not all).  The public *)
+(* objects never refuse: the kernels route such calls to the generic       *)
+(* branch.  A backward that consults ctx.needs_input_grad to skip work is  *)
+(* modelled by a shortcut set: <<fn, i, j>> = "when j needs no gradient,  *)
+(* the part of i's gradient computed on j's chain is dropped" - the code   *)
+(* has                                                                     *)
+(* none (every backward computes every term whatever is needed); with one  *)
+(* TLC needs a case whose rg is a PROPER subset to violate BWNeedsOK.      *)
 (***************************************************************************)
 EXTENDS Naturals, Sequences, FiniteSets
 
 CONSTANTS BWMaxBwd,        \* passes through one graph
           BWUpstreams,     \* subset of {"ones", "randA", "randB", "unit", "rows"}
           BWImpure         \* set of <<function, context entry>> the modelled backward modifies in place; {} = the code
+\* (the shortcut set sc of the operators below - <<function, input i, input j>>: i's gradient loses the terms shared with j's chain when j needs
+\*  none; {} = the code - is an operator argument, not a constant: Quadrature.tla shares this module)
 
 \* ---- the hand-written Functions and their contexts, transcribed ----------------------------------
 BWFns == {"rbfcov", "materncov", "lncdf", "nat2muvar", "trilnat2muvar", "ngdinterp"}
@@ -60,6 +78,34 @@ BWAttrs(fn, tail) == IF fn = "lncdf" /\ tail THEN {"numerator", "denominator"} E
 BWNames(fn, tail) == BWSaved(fn) \cup BWAttrs(fn, tail)
 \* what the backward reads, by branch: the tail branch of LogNormalCDF.backward reads the two attributes, everything else the saved tensors
 BWReads(fn, tail) == BWNames(fn, tail)
+
+\* ---- the tensor inputs and who requires a gradient -------------------------------------------------
+BWCovFns == {"rbfcov", "materncov"}
+BWInputs(fn) == CASE fn \in BWCovFns        -> {"x1", "x2", "lengthscale"}
+                  [] fn = "lncdf"         -> {"z"}
+                  [] fn = "nat2muvar"     -> {"natural_vec", "natural_mat"}
+                  [] fn = "trilnat2muvar" -> {"natural_vec", "natural_tril_mat"}
+                  [] fn = "ngdinterp"     -> {"interp_term", "natural_vec", "natural_mat"}
+BWNeedSets(fn) == (SUBSET BWInputs(fn)) \ {{}}
+\* the inputs the hand-written backward has a derivative for (it returns None for the others)
+BWHasGrad(fn) == IF fn \in BWCovFns THEN {"lengthscale"} ELSE BWInputs(fn)
+\* the forward's guard: any(ctx.needs_input_grad[:2]) -> RuntimeError
+BWRefuses(fn, rg) == rg \ BWHasGrad(fn) # {}
+\* through the public object the two-path kernels send every call in which x1 OR x2 requires grad to the generic branch (KernelCalls!KCGeneric)
+BWRoute(fn, api, rg) == IF api = "public" /\ fn \in BWCovFns /\ rg \cap {"x1", "x2"} # {} THEN "autograd" ELSE "function"
+BWDelivered(fn, rg, i, sc) == IF i \notin BWHasGrad(fn) THEN "None"
+                          ELSE IF \E j \in BWInputs(fn) \ rg : <<fn, i, j>> \in sc THEN "partial"
+                          ELSE "u . dF/d input"
+BWOutcome(fn, api, rg, sc) ==
+  IF BWRoute(fn, api, rg) = "autograd" THEN [refused |-> FALSE, route |-> "autograd", grads |-> [i \in rg |-> "u . dF/d input"]]
+  ELSE IF BWRefuses(fn, rg) THEN [refused |-> TRUE, route |-> "function", grads |-> [i \in rg |-> "-"]]
+  ELSE [refused |-> FALSE, route |-> "function", grads |-> [i \in rg |-> BWDelivered(fn, rg, i, sc)]]
+\* every input that requires grad receives the complete derivative, or the call was refused loudly (only the bare Function may refuse)
+BWNeedsOK(fn, api, rg, sc) ==
+  LET o == BWOutcome(fn, api, rg, sc)
+  IN /\ rg \in BWNeedSets(fn)
+     /\ (o.refused => api = "function")
+     /\ (~o.refused => \A i \in rg : o.grads[i] = "u . dF/d input")
 
 BWModes == {"grad", "accum", "free"}
 
@@ -88,7 +134,8 @@ BWPure(m)    == \A n \in DOMAIN m.ctx : m.ctx[n] = 0
 BWDerivOK(m) == \A j \in 1..Len(m.hist) : \A n \in DOMAIN m.hist[j].saw : m.hist[j].saw[n] = 0
 \* what pass j must deliver: u_j . dF(x) of the ONE forward of the history
 BWExpected(m) == [j \in 1..Len(m.hist) |-> [u |-> m.hist[j].u, how |-> m.hist[j].how, delivers |-> "u . dF(x)"]]
-BWTypeOK(m)  == /\ m.phase \in {"built", "recorded", "jacobian"} /\ Len(m.hist) <= BWMaxBwd
-                /\ (m.phase = "built" => m.hist = <<>> /\ ~m.alive)
+BWRefused(m) == [m EXCEPT !.phase = "refused"]                \* the forward raised: no graph, no pass
+BWTypeOK(m)  == /\ m.phase \in {"built", "recorded", "jacobian", "refused"} /\ Len(m.hist) <= BWMaxBwd
+                /\ (m.phase \in {"built", "refused"} => m.hist = <<>> /\ ~m.alive)
                 /\ \A j \in 1..Len(m.hist) : (m.hist[j].how = "free" => j = Len(m.hist))      \* nothing follows a pass that released the graph
 =============================================================================
